@@ -1,4 +1,5 @@
 import Casm.Model.Assemble
+import Casm.Proofs.SymbolLemmas
 /-!
 # C15 — symbols resolve lexically and independently of declaration order
 
@@ -14,9 +15,19 @@ About `Casm.SymMgr` (model of `util::SymbolManager`) and its use by `evalVariabl
   declarations (built before any evaluation), so use-before-declaration and use-after
   resolve alike.
 
-The refinement "the table maps full dotted paths to declarations" (`lookup_refines_scope` in
-DESIGN.md) is established by the search (Python scope walker vs implementation vs model) and
-is not yet a theorem.  Finding F16: the context follows every symbol, not only labels.
+* `reference_denotes_path` — **the scope rule**: in every table the assembler can build
+  (`Built`: from the empty table by successful declarations, each made in the root context or in
+  the context left by an earlier declaration), a reference with `level` dots and path `path`,
+  used where the context is `ctx` (the root or the path of the last declaration), denotes
+  exactly the declaration whose full dotted path is the first `level` components of `ctx`
+  followed by `path` — and nothing if no declaration has that path (`reference_unknown`).
+  `declaration_gets_path` — a declaration with `level` dots and name `n` made in context `ctx`
+  gets the path `ctx.take level ++ [n]`; `paths_are_unique`.
+  Together: a bare name is global, one dot = child of the enclosing depth-0 declaration, `k`
+  dots = child of the enclosing declaration `k-1` levels deep, dotted paths descend from there.
+
+Finding F16: the context follows every symbol declaration, not only labels (so "enclosing
+label" reads "enclosing symbol"); the theorems are about the context as the code maintains it.
 -/
 namespace Casm.C15
 
@@ -93,6 +104,59 @@ theorem reference_sees_whole_table (st : Static) (defs : Defs) (ctx ctx' : RCtx)
       simp only [beq_self_eq_true, if_true, hn', Bool.false_eq_true, if_false, hsym, hguess]
   · have : (level == 0) = false := by simpa using h0
     simp only [this, Bool.false_eq_true, if_false, hsym, hguess]
+
+/-! ## the scope rule -/
+
+/-- **a reference denotes the declaration whose dotted path is the enclosing path (down to the
+    dot-level) followed by the reference's path** -/
+theorem reference_denotes_path (m : SymMgr) (hb : Built m) (ctx : List String) (level : Nat) (path : List String) (r : Nat)
+    (hctx : ctx = [] ∨ ∃ i, i < m.decls.length ∧ (m.decls.getD i default).ctx = ctx)
+    (hl : level ≤ ctx.length) (hp : path ≠ []) :
+    m.tryGetByName ctx level path = some r ↔
+      r < m.decls.length ∧ (m.decls.getD r default).ctx = ctx.take level ++ path :=
+  lookup_refines_scope m (built_wf hb) ctx level path r hl (resolves_take m (built_wf hb) ctx hctx level) hp
+
+/-- …and nothing when no declaration has that path -/
+theorem reference_unknown (m : SymMgr) (hb : Built m) (ctx : List String) (level : Nat) (path : List String)
+    (hctx : ctx = [] ∨ ∃ i, i < m.decls.length ∧ (m.decls.getD i default).ctx = ctx)
+    (hl : level ≤ ctx.length) (hp : path ≠ [])
+    (hno : ∀ r, r < m.decls.length → (m.decls.getD r default).ctx ≠ ctx.take level ++ path) :
+    m.tryGetByName ctx level path = none :=
+  lookup_unknown m (built_wf hb) ctx level path hl (resolves_take m (built_wf hb) ctx hctx level) hp hno
+
+/-- a declaration gets the enclosing path (down to its dot-level) followed by its name, and no
+    earlier declaration changes its path -/
+theorem declaration_gets_path (m m' : SymMgr) (hb : Built m) (ctx : List String) (name : String) (level : Nat) (kind : DeclKind) (idx : Nat)
+    (hctx : ctx = [] ∨ ∃ i, i < m.decls.length ∧ (m.decls.getD i default).ctx = ctx)
+    (h : m.declare ctx name level kind = .ok (idx, m')) :
+    Built m' ∧ (m'.decls.getD idx default).ctx = ctx.take level ++ [name] ∧
+      ∀ i, i < m.decls.length → (m'.decls.getD i default).ctx = (m.decls.getD i default).ctx := by
+  obtain ⟨_, _, _, h4, h5⟩ := declare_preserves m m' (built_wf hb) ctx name level kind idx (resolves_take m (built_wf hb) ctx hctx level) h
+  exact ⟨Built.declare hb hctx h, h4, h5⟩
+
+/-- one path, one declaration -/
+theorem paths_are_unique (m : SymMgr) (hb : Built m) (i j : Nat) (hi : i < m.decls.length) (hj : j < m.decls.length)
+    (h : (m.decls.getD i default).ctx = (m.decls.getD j default).ctx) : i = j :=
+  path_unique m (built_wf hb) i j hi hj h
+
+/-- the order of two declarations in different scopes does not matter for what a path denotes:
+    a reference found before a later declaration is still found, and denotes the same declaration -/
+theorem later_declarations_do_not_rebind (m m' : SymMgr) (hb : Built m) (ctx name : _) (level : Nat) (kind : DeclKind) (idx : Nat)
+    (hctx : ctx = [] ∨ ∃ i, i < m.decls.length ∧ (m.decls.getD i default).ctx = ctx)
+    (h : m.declare ctx name level kind = .ok (idx, m'))
+    (uctx : List String) (ulevel : Nat) (upath : List String) (r : Nat)
+    (huctx : uctx = [] ∨ ∃ i, i < m.decls.length ∧ (m.decls.getD i default).ctx = uctx)
+    (hul : ulevel ≤ uctx.length) (hup : upath ≠ [])
+    (hfound : m.tryGetByName uctx ulevel upath = some r) : m'.tryGetByName uctx ulevel upath = some r := by
+  obtain ⟨hb', _, hold⟩ := declaration_gets_path m m' hb ctx name level kind idx hctx h
+  have hlen : m'.decls.length = m.decls.length + 1 :=
+    (declare_preserves m m' (built_wf hb) ctx name level kind idx (resolves_take m (built_wf hb) ctx hctx level) h).2.2.1
+  have ⟨hr, hrc⟩ := (reference_denotes_path m hb uctx ulevel upath r huctx hul hup).mp hfound
+  have huctx' : uctx = [] ∨ ∃ i, i < m'.decls.length ∧ (m'.decls.getD i default).ctx = uctx := by
+    rcases huctx with h0 | ⟨i, hi, hc⟩
+    · exact Or.inl h0
+    · exact Or.inr ⟨i, by omega, by rw [hold i hi]; exact hc⟩
+  exact (reference_denotes_path m' hb' uctx ulevel upath r huctx' hul hup).mpr ⟨by omega, by rw [hold r hr]; exact hrc⟩
 
 /-! non-vacuity: a small table -/
 def demo : SymMgr :=
